@@ -144,7 +144,9 @@ prop("C07", level="other",
                 "component as p.name (string view). BOUNDED: DependencyToRuleConverter (builds Rule objects through the fluent API inside comprehensions) and the end-to-end conformance claim: the real DiagramRule outcome is compared with the conformance predicate of the property on random component relations and perturbed import graphs, both "
                 "modes; aggregated messages are checked to contain every violated forbidden pair.",
      level_note=_BND_NOTE, technique=_BND_TECH, explanation="diagram rule conformance", roots=["MultipleRuleApplier.assert_applies", "ModulePrefixer.prefix", "ModulePrefixer._add_prefix_to_module"], bounded=[_b("diagrams", "bounded_diagram_rule")], trusted_base=_TB)
-prop("C17", level="exploration",
-     level_text="Bounded exploration: labels, existence check and keyword pass-through observed at the intercepted drawing call for random trees and alias maps (nested aliases, prefix-named "
+prop("C17", level="other",
+     level_text="Mixed. PROVED (string view, all strings, any number of aliases): NetworkxGraph._create_label returns the alias of the LONGEST aliased module that equals the module or is a dotted "
+                "ancestor of it, followed by the rest of the name, and the full name when none applies (label_ok); _create_plot_labels_with_alias labels exactly the graph's nodes, each with "
+                "label_ok, and raises KeyError iff an aliased module is not a node; _assert_aliased_modules_exist. BOUNDED: draw()'s keyword pass-through and the composition: labels, existence check and keyword pass-through observed at the intercepted drawing call for random trees and alias maps (nested aliases, prefix-named "
                 "siblings, regex metacharacters).",
-     level_note=_BND_NOTE + "draw_networkx / spring_layout intercepted with unittest.mock.", technique=_BND_TECH, explanation="plot labels", roots=[], bounded=[_b("layers", "bounded_labels")], trusted_base=_TB)
+     level_note=_BND_NOTE + "draw_networkx / spring_layout intercepted with unittest.mock.", technique=_BND_TECH, explanation="plot labels", roots=["NetworkxGraph._create_plot_labels_with_alias", "NetworkxGraph._create_label", "NetworkxGraph._assert_aliased_modules_exist"], bounded=[_b("layers", "bounded_labels")], trusted_base=_TB)
